@@ -561,6 +561,10 @@ func (m *Mutex) Unlock() {
 		if ab && wasHeld {
 			return
 		}
+	} else if m.held {
+		// taken under a scheduler that has finished since: a straggler of that execution is unwinding
+		m.held = false
+		return
 	}
 	m.real.Unlock()
 }
@@ -620,6 +624,9 @@ func (rw *RWMutex) Unlock() {
 		if ab && was {
 			return
 		}
+	} else if rw.writer {
+		rw.writer = false
+		return
 	}
 	rw.real.Unlock()
 }
@@ -657,6 +664,9 @@ func (rw *RWMutex) RUnlock() {
 		if ab && was {
 			return
 		}
+	} else if rw.readers > 0 {
+		rw.readers--
+		return
 	}
 	rw.real.RUnlock()
 }
